@@ -4,7 +4,8 @@ from common import *
 import runner
 from props.parts import cratesv2 as cv
 
-LEAN_MODULES = ["Properties.C08V2"]
+LEAN_MODULES = ["Properties.C08V2", "Properties.C09Schema"]
+TRANSLATORS = {"v2ddl": cv.translate_ddl}
 THEOREMS = ["EngineModel.Properties.C08V2." + t for t in [
     "C08V2_step_refines",
     "C08V2_refines",
@@ -16,7 +17,7 @@ THEOREMS = ["EngineModel.Properties.C08V2." + t for t in [
     "C08V2_remove_absent_noop",
     "C08V2_remove_track_spares_foreign_entries",
     "C08V2_removal_erases",
-]]
+]] + ["EngineModel.Properties.C09.C09_crate_ddl_same_in_all_2x_schemas"]
 ASSUMPTIONS = [
     "2.x: create_track is modelled as allocation of the next AUTOINCREMENT track id (the tie creates tracks from a minimal "
     "valid snapshot); databaseUuid of every PlaylistEntity row is the library's own and membershipReference is 0 (checked on "
